@@ -243,7 +243,8 @@ Proof.
     { destruct (resolve_dir t root (split_on slash p)) as [d|fe].
       - exact (Hafter (t, lg) Hl).
       - pose proof (mkdir_all_confined umask root _ t [] lg Hpc Hpr Hl) as Hm. rewrite app_nil_r in Hm.
-        destruct (mkdir_all umask t root (removelast (no_curdir (components p))) lg) as [st1 [[l|fe']|]]; exact Hm. }
+        destruct (mkdir_all umask t root (removelast (no_curdir (components p))) lg) as [st1 [[l|fe']|]]; cbn [fst snd] in Hm |- *;
+          try exact Hm; (destruct (resolve_dir (fst st1) root (split_on slash p)); [now apply Hafter|exact Hm]). }
     pose proof (mkdir_all_confined umask root (components p) t [] lg Hc Hr Hl) as Hm. rewrite app_nil_r in Hm.
     destruct (mkdir_all umask t root (components p) lg) as [st1 [[l|fe]|]]; cbn [fst snd] in Hm |- *;
       try exact Hm. now apply Hafter.
